@@ -17,10 +17,12 @@ package frame
 // ---------------------------------------------------------------------------
 // fixed length
 //@ func FixedLengthCodec
+//@   params length
 //@   panics_iff length <= 0
 //@   ensures is(result, *fixedLengthCodec) && as(result, *fixedLengthCodec) != nil && as(result, *fixedLengthCodec).length == length
 //@ field fixedLengthCodec.length immutable FixedLengthCodec
 //@ func (*fixedLengthCodec).HandleRead
+//@   params f ctx message
 //@   requires f != nil && ctx != nil && f.length > 0 && isReaderMsg(message)
 //@   may_panic true
 //@   ensures one_frame: nemitted() == 2 && evis(0, "utils.MustToReader") && evis(1, "InboundContext.HandleRead") && evrecv(1) == ctx && impl(evarg(1, 0), io.Reader)
@@ -29,6 +31,7 @@ package frame
 //@   ensures complete_or_error: at(1, ravail(evarg(1, 0)) == f.length || rbad(evarg(1, 0)))
 //@   ensures content: at(1, forall(i, 0, ravail(evarg(1, 0)), rdata(evarg(1, 0))[i] == rdata(message)[rpos(message) + i]))
 //@ func (*fixedLengthCodec).HandleWrite
+//@   params f ctx message
 //@   requires ctx != nil
 //@   may_panic true
 //@   ensures forwards: nemitted() == 1 && evis(0, "OutboundContext.HandleWrite") && evrecv(0) == ctx && evarg(0, 0) == message
@@ -36,12 +39,14 @@ package frame
 // ---------------------------------------------------------------------------
 // variable length (one transport read = one message)
 //@ func VariableLengthCodec
+//@   params maxReadLength
 //@   panics_iff maxReadLength <= 0
 //@   requires maxReadLength <= 1<<47
 //@   ensures is(result, *variableLengthCodec) && as(result, *variableLengthCodec) != nil && as(result, *variableLengthCodec).maxReadLength == maxReadLength && len(as(result, *variableLengthCodec).buffer) == maxReadLength
 //@ field variableLengthCodec.maxReadLength immutable VariableLengthCodec
 //@ field variableLengthCodec.buffer immutable VariableLengthCodec
 //@ func (*variableLengthCodec).HandleRead
+//@   params v ctx message
 //@   requires v != nil && ctx != nil && v.maxReadLength > 0 && len(v.buffer) == v.maxReadLength && isReaderMsg(message)
 //@   may_panic true
 //@   ensures one_frame: nemitted() == 2 && evis(0, "utils.MustToReader") && evis(1, "InboundContext.HandleRead") && evrecv(1) == ctx && is(evarg(1, 0), []byte)
@@ -50,6 +55,7 @@ package frame
 //@   ensures end_of_stream_is_never_a_message: old(rpos(message)) != rend(message) && len(as(evarg(1, 0), []byte)) > 0
 //@   ensures_panic nothing: count("InboundContext.HandleRead") == 0 || nemitted() == 2
 //@ func (*variableLengthCodec).HandleWrite
+//@   params arg0 ctx message
 //@   requires ctx != nil
 //@   may_panic true
 //@   ensures forwards: nemitted() == 1 && evis(0, "OutboundContext.HandleWrite") && evrecv(0) == ctx && evarg(0, 0) == message
@@ -57,10 +63,12 @@ package frame
 // ---------------------------------------------------------------------------
 // varint length field
 //@ func VarintLengthFieldCodec
+//@   params maxFrameLength
 //@   panics_iff maxFrameLength <= 0
 //@   ensures is(result, *varintLengthFieldCodec) && as(result, *varintLengthFieldCodec) != nil && as(result, *varintLengthFieldCodec).maxFrameLength == maxFrameLength
 //@ field varintLengthFieldCodec.maxFrameLength immutable VarintLengthFieldCodec
 //@ func (*varintLengthFieldCodec).HandleRead
+//@   params v ctx message
 //@   mode bv
 //@   requires v != nil && ctx != nil && v.maxFrameLength > 0 && isReaderMsg(message)
 //@   may_panic true
@@ -72,6 +80,7 @@ package frame
 //@   ensures content: at(1, forall(i, 0, ravail(evarg(1, 0)), rdata(evarg(1, 0))[i] == rdata(message)[rpos(message) + i]))
 //@   ensures_panic nothing: count("InboundContext.HandleRead") == 0 || nemitted() == 2
 //@ func (*varintLengthFieldCodec).HandleWrite
+//@   params v ctx message
 //@   mode bv
 //@   requires v != nil && ctx != nil && implies(tbStable(message) || (tbOther(message) && impl(message, io.Reader)), rwf(message))
 //@   may_panic true
@@ -88,12 +97,15 @@ package frame
 //@ spec func okWidth(w int) bool = w == 1 || w == 2 || w == 4 || w == 8
 //@ spec func maskOf(w int) uint64 = ite(w == 1, 255, ite(w == 2, 65535, ite(w == 4, 4294967295, 18446744073709551615)))
 //@ func unpackFieldLength
+//@   params byteOrder fieldLen buff
+//@   results frameLength
 //@   event
 //@   mode bv
 //@   requires byteOrder != nil && okWidth(fieldLen) && len(buff) >= fieldLen
 //@   ensures value: uint64(frameLength) == field(byteOrder, fieldLen, content(buff))
 //@   ensures range: implies(fieldLen < 8, frameLength >= 0 && uint64(frameLength) <= maskOf(fieldLen))
 //@ func packFieldLength
+//@   params byteOrder fieldLen dataLen
 //@   mode bv
 //@   requires byteOrder != nil && okWidth(fieldLen)
 //@   ensures shape: len(result) == fieldLen && fresh(result)
@@ -103,6 +115,7 @@ package frame
 //@ spec func lfeo(l *lengthFieldCodec) int = l.lengthFieldOffset + l.lengthFieldLength
 //@ spec func lfFL(l *lengthFieldCodec, s seq) int64 = int64(field(l.byteOrder, l.lengthFieldLength, subseq(s, l.lengthFieldOffset, l.lengthFieldLength))) + int64(l.lengthAdjustment + lfeo(l))
 //@ func LengthFieldCodec
+//@   params byteOrder maxFrameLength lengthFieldOffset lengthFieldLength lengthAdjustment initialBytesToStrip
 //@   mode bv
 //@   requires byteOrder != nil && maxFrameLength <= 1<<47 && lengthAdjustment >= -(1<<47) && lengthAdjustment <= 1<<47
 //@   panics_iff maxFrameLength <= 0 || lengthFieldOffset < 0 || initialBytesToStrip < 0 || !okWidth(lengthFieldLength) || lengthFieldOffset > maxFrameLength-lengthFieldLength
@@ -110,6 +123,7 @@ package frame
 //@   ensures config: as(result, *lengthFieldCodec).byteOrder == byteOrder && as(result, *lengthFieldCodec).maxFrameLength == maxFrameLength && as(result, *lengthFieldCodec).lengthFieldOffset == lengthFieldOffset && as(result, *lengthFieldCodec).lengthFieldLength == lengthFieldLength && as(result, *lengthFieldCodec).lengthAdjustment == lengthAdjustment && as(result, *lengthFieldCodec).initialBytesToStrip == initialBytesToStrip
 //@ spec func lfRawFL(l *lengthFieldCodec, raw int64) int64 = raw + int64(l.lengthAdjustment + lfeo(l))
 //@ func (*lengthFieldCodec).HandleRead
+//@   params l ctx message
 //@   mode intwrap
 //@   requires linv(l) && ctx != nil && isReaderMsg(message)
 //@   may_panic true
@@ -123,6 +137,7 @@ package frame
 
 //@ spec func pinv(l *lengthFieldPrepender) bool = l != nil && l.byteOrder != nil && okWidth(l.lengthFieldLength)
 //@ func LengthFieldPrepender
+//@   params byteOrder lengthFieldLength lengthAdjustment lengthIncludesLengthFieldLength
 //@   mode bv
 //@   requires byteOrder != nil
 //@   panics_iff !okWidth(lengthFieldLength)
@@ -130,6 +145,7 @@ package frame
 //@   ensures config: as(result, *lengthFieldPrepender).byteOrder == byteOrder && as(result, *lengthFieldPrepender).lengthFieldLength == lengthFieldLength && as(result, *lengthFieldPrepender).lengthAdjustment == lengthAdjustment && as(result, *lengthFieldPrepender).lengthIncludesLengthFieldLength == lengthIncludesLengthFieldLength
 //@ spec func plen(l *lengthFieldPrepender, n int) int = n + l.lengthAdjustment + ite(l.lengthIncludesLengthFieldLength, l.lengthFieldLength, 0)
 //@ func (*lengthFieldPrepender).HandleWrite
+//@   params l ctx message
 //@   mode bv
 //@   requires pinv(l) && ctx != nil && implies(tbStable(message) || (tbOther(message) && impl(message, io.Reader)), rwf(message))
 //@   may_panic true
@@ -143,11 +159,13 @@ package frame
 // delimiter
 //@ spec func dinv(d *delimiterCodec) bool = d != nil && d.maxFrameLength > 0 && d.maxFrameLength <= 1<<47 && len(d.delimiter) > 0
 //@ func DelimiterCodec
+//@   params maxFrameLength delimiter stripDelimiter
 //@   requires maxFrameLength <= 1<<47
 //@   panics_iff maxFrameLength <= 0 || len(delimiter) <= 0
 //@   ensures is(result, *delimiterCodec) && dinv(as(result, *delimiterCodec)) && as(result, *delimiterCodec).maxFrameLength == maxFrameLength && as(result, *delimiterCodec).stripDelimiter == stripDelimiter
 //@   ensures delimiter: seqeq(content(as(result, *delimiterCodec).delimiter), content(delimiter))
 //@ func (*delimiterCodec).HandleRead
+//@   params d ctx message
 //@   requires dinv(d) && ctx != nil && isReaderMsg(message)
 //@   may_panic true
 //@   loop 0 modifies elems(uint8), ghost rpos
@@ -162,6 +180,7 @@ package frame
 //@   ensures content: at(1, seqeq(rcontent(evarg(1, 0)), subseq(rdata(message), old(rpos(message)), ravail(evarg(1, 0)))))
 //@   ensures_panic nothing: count("InboundContext.HandleRead") == 0 || nemitted() == 2
 //@ func (*delimiterCodec).HandleWrite
+//@   params d ctx message
 //@   requires dinv(d) && ctx != nil
 //@   may_panic true
 //@   ensures bytes_case: implies(is(message, []byte), nemitted() == 1 && evis(0, "OutboundContext.HandleWrite") && evrecv(0) == ctx && is(evarg(0, 0), [][]byte) && len(as(evarg(0, 0), [][]byte)) == 2 && at(0, sameslice(as(evarg(0, 0), [][]byte)[0], as(message, []byte)) && sameslice(as(evarg(0, 0), [][]byte)[1], d.delimiter)))
@@ -173,6 +192,7 @@ package frame
 // ---------------------------------------------------------------------------
 // packet (datagram transports): pass-through
 //@ func (packetCodec).HandleWrite
+//@   params arg0 ctx message
 //@   requires ctx != nil
 //@   may_panic true
 //@   ensures forwards: nemitted() == 1 && evis(0, "OutboundContext.HandleWrite") && evrecv(0) == ctx && evarg(0, 0) == message
